@@ -1,0 +1,41 @@
+//go:build verif
+
+// Machine-checked contracts for this package (comment-only; compiled only with
+// the build tag `verif`). Read by /verif/engine (govc); see /verif/DESIGN.md.
+package emit
+//
+// ---- statement-tree walkers descend into every nested block -------------------------------
+// (type-derived: for the statement handled by one iteration every field of type
+// Block of every statement kind is passed to the recursive call; see ir/zz_verif_contracts.go)
+//
+//@ func markNestedStores
+//@   mode bv
+//@   tags C18
+//@   ghostcall markNestedStores visitedBlock block
+//@   traverse stepmark 1 block ir.Block visitedBlock($)
+//
+//@ func collectCallsFromBlock
+//@   mode bv
+//@   tags C18
+//@   ghostcall collectCallsFromBlock visitedBlock
+//@   traverse stepmark 1 stmts ir.Block visitedBlock($)
+//
+//@ func visitStatementHandlesOne
+//@   mode bv
+//@   tags C18
+//@   ghostcall visitStatementHandles visitedBlock
+//@   callback f visitedHandle
+//@   traverse mark kind ir.Block visitedBlock($)
+//
+//@ func addStatementReferencedExprs
+//@   mode bv
+//@   tags C18
+//@   ghostcall addStatementReferencedExprs visitedBlock block
+//@   traverse stepmark 1 block ir.Block visitedBlock($)
+//
+//@ func collectEmitsBlock
+//@   mode bv
+//@   tags C18
+//@   ghostcall collectEmitsBlock visitedBlock block
+//@   traverse stepmark 1 block ir.Block visitedBlock($)
+//
